@@ -1,7 +1,7 @@
 (* C10, part B: the Accumulator model (C10/Updater.v) over the reals.
    apply_spec, cache coherence, permutation invariance, no-op laws. *)
 From Coq Require Import List ZArith Bool Arith Reals Lra Lia Permutation.
-From Inferno Require Import Base.Num Base.NumR Gen.Bounding C10.Updater C10.KernelProofs.
+From Inferno Require Import Base.Num Base.NumR Gen.Bounding C10.Updater C10.KernelAlgebra.
 Import ListNotations.
 Open Scope R_scope.
 
